@@ -15,7 +15,7 @@ ID = "C01"
 TAG = pc.TAG
 EXTRACT = pc.EXTRACT
 DRIVER = pc.DRIVER
-COQ_FILES = ["FA/Proofs/PipelineFacts.v", "FA/Proofs/PipelineSem.v", "FA/Proofs/PipelineCapture.v", "FA/Properties/C01.v"]
+COQ_FILES = ["FA/Proofs/PipelineFacts.v", "FA/Proofs/PipelineSem.v", "FA/Proofs/PipelineCapture.v", "FA/Proofs/PipelineSimp.v", "FA/Properties/C01.v"]
 
 LEVEL = ("Coq theorems over the composed model Model/Pipeline.v (acquire -> sugar -> follow -> Op(parent, lambda) with "
          "callback metadata -> terminal -> remove_empty -> ext, agg, simplify; node names and argument orders read from "
@@ -24,10 +24,15 @@ LEVEL = ("Coq theorems over the composed model Model/Pipeline.v (acquire -> suga
          "operator order: operator_chain_means_direct (untyped chains of string / ast lambdas in C10's grammar, with "
          "comprehension sugar, through a terminal and value()), captured_literals_chain_means_direct (the same with "
          "callables whose captured variables are literals and whose bodies are in C04's first-order fragment), "
-         "remove_empty_preserves_meaning, passes_preserve_meaning_ext_agg.  Proved relative to named hypotheses about "
-         "component models: query_means_chain (capture_sound, follow_sound), passes_preserve_meaning and "
-         "fluent_query_end_to_end (simp_ok).  Model tied to the code by exact comparison of the AST handed to the executor "
-         "on generated programs; the property itself checked on the implementation by executing the chains.")
+         "remove_empty_preserves_meaning, passes_preserve_meaning_ext_agg, and - composing C02's whole-algorithm theorem - "
+         "passes_preserve_meaning_no_first and fluent_query_end_to_end_no_first / fluent_callables_end_to_end_no_first: "
+         "those chains mean what Python computes after ext, agg AND simplify with no hypothesis about any component, "
+         "provided the query reaching the simplifier is admissible (well formed, no reserved arg_N names, parameters "
+         "unknown to the backend as functions, no First; decided by admissible_is_decided) and the backend meets C02's "
+         "backend_ok.  Proved relative to named hypotheses about component models: query_means_chain and "
+         "query_passes_no_first (capture_sound, follow_sound: typed datasets, general callables), passes_preserve_meaning "
+         "(simp_ok: queries with First).  Model tied to the code by exact comparison of the AST handed to the executor on "
+         "generated programs; the property itself checked on the implementation by executing the chains.")
 TRUSTED = ["Coq 8.16.1 kernel (coqc); no axioms (Print Assumptions: closed under the global context)",
            "harness/sync_tables.py + harness/tables/*.py (operator_nodes, terminals, ext_default_ops, agg_rules read from the source)",
            "extraction: ExtrOcamlBasic + ExtrOcamlNativeString; ocaml/driver_pipe.ml codecs",
@@ -35,12 +40,16 @@ TRUSTED = ["Coq 8.16.1 kernel (coqc); no axioms (Print Assumptions: closed under
            "types_common.Model.world_sx (class table read from the live classes), the closure snapshot read with inspect at the call"]
 ASSUME = ["hypotheses of query_means_chain / passes_preserve_meaning named in Properties/C01.v: capture_sound (C04/C05 are partial), "
           "follow_sound (C07/C09 are partial; also: the backend interprets defaults as the class table declares them), "
-          "simp_ok (C02's whole-algorithm theorem is not proved), md_identity / terminals_identity (MetaData and result "
-          "terminals are the identity on the sequence)",
+          "simp_ok only for queries that mention First (C02's whole-algorithm theorem excludes them: the First push-through "
+          "is sound for lazy LINQ, not for the eager list semantics of eval); admissibility of the query reaching the "
+          "simplifier is a decidable hypothesis, not derived from the chain; md_identity / terminals_ok (MetaData and "
+          "result terminals denote the stream they are given)",
           "a dictionary literal of the query language is a record (entries reachable as attributes), as func_adl's back ends read it",
           "LINQ operators are lazy (an element is computed when demanded)"]
 RULE = ("generated Python programs (chains of 1-6 Select/Where/SelectMany calls, branching from shared parents, lambdas as "
-        "callables / strings / ast objects, typed and untyped datasets, optional terminals), corpus first; a case is "
+        "callables (positionally or by keyword) / strings / ast objects, lambdas written once and turned into a query "
+        "several times with another captured value (for loop, local and module-level factory, rebound closure variable), "
+        "typed and untyped datasets, optional terminals), corpus first; a case is "
         "non-trivial when the library built a query for it and direct execution computed a value on at least one dataset; "
         "distinct by program text")
 
